@@ -25,6 +25,7 @@ def plan(tier, seed):
     per = 700 if tier == "quick" else 25000
     specs = [{"mode": "random", "n": per, "rseed": seed * 1000 + i, "registry": i % 4 != 3} for i in range(13)]
     specs.append({"mode": "cli", "n": 30 if tier == "quick" else 600, "rseed": seed * 1000 + 700})
+    specs.append({"mode": "climodes", "n": 25 if tier == "quick" else 600, "rseed": seed * 1000 + 750})
     specs.append({"mode": "sweep", "rseed": seed * 1000 + 800, "reps": 1 if tier == "quick" else 20})
     specs.append({"mode": "sweep", "rseed": seed * 1000 + 801, "reps": 1 if tier == "quick" else 20, "registry": False})
     return specs
@@ -39,6 +40,9 @@ def minimums(tier):
     m["ud.flavor.hexonly.plugins"] = 500
     m["ud.flavor.unknown-id.plugins"] = 500
     m["cli.runs"] = 50
+    m["cli.mode_runs"] = 200
+    m["cli.mode_runs_with_dominated_options"] = 130
+    m["embedded-in-larger-stream"] = 500
     m["cli.nonascii_values_checked"] = 50
     return m
 
@@ -54,6 +58,8 @@ def run(spec, ctx):
     reg = harness.registry_model()
     if spec["mode"] == "cli":
         return run_cli(spec, ctx, rng, u)
+    if spec["mode"] == "climodes":
+        return fidelity.run_cli_modes(spec, ctx, "C04", rng, u, reg, KINDS, creators="OOOOBMHX")
     if spec["mode"] == "random":
         for _ in range(spec["n"]):
             plugins = rng.random() < 0.7
